@@ -30,6 +30,12 @@ var solvers = []solverSpec{
 	}},
 }
 
+type cacheEntry struct {
+	done    chan struct{}
+	res     solveResult
+	relaxed string
+}
+
 type solveResult struct {
 	verdict string
 	solver  string
@@ -88,11 +94,14 @@ func (s *Solver) solve(o *Oblig) {
 	script := o.script(true)
 	h := sha256.Sum256([]byte(script))
 	key := hex.EncodeToString(h[:12])
-	if v, ok := s.cache.Load(key); ok {
-		r := v.(solveResult)
-		o.Verdict, o.Solver, o.TimeMS, o.Raw = r.verdict, r.solver, 0, r.out
+	ent := &cacheEntry{done: make(chan struct{})}
+	if v, loaded := s.cache.LoadOrStore(key, ent); loaded {
+		e := v.(*cacheEntry)
+		<-e.done
+		o.Verdict, o.Solver, o.TimeMS, o.Raw, o.Relaxed = e.res.verdict, e.res.solver, 0, e.res.out, e.relaxed
 		return
 	}
+	defer close(ent.done)
 	file := filepath.Join(s.dir, key+".smt2")
 	os.WriteFile(file, []byte(script), 0o644)
 	t1, t2 := 6, 20
@@ -101,8 +110,19 @@ func (s *Solver) solve(o *Oblig) {
 	}
 	var res solveResult
 	var all []solveResult
-	res = runSolver(solvers[0], file, t1, s.seed)
-	all = append(all, res)
+	if o.Cover {
+		// vacuity guard: the hypotheses must not be refutable; proving them
+		// satisfiable in the presence of quantified axioms is not attempted
+		// beyond a short budget (unknown counts as not refuted)
+		res = runSolver(solvers[0], file, 3, s.seed)
+		if res.verdict != "unsat" {
+			res.verdict = "sat"
+		}
+		all = append(all, res)
+	} else {
+		res = runSolver(solvers[0], file, t1, s.seed)
+		all = append(all, res)
+	}
 	if res.verdict != "unsat" && res.verdict != "sat" || (res.verdict == "sat" && !o.Cover && false) {
 		// fall back to the other two in parallel
 		ch := make(chan solveResult, 2)
@@ -145,7 +165,7 @@ func (s *Solver) solve(o *Oblig) {
 	}
 	res.out = raw.String()
 	res.ms = ms
-	s.cache.Store(key, res)
+	ent.res = res
 	s.mu.Lock()
 	s.totalMS += ms
 	s.bySolver[res.solver]++
@@ -163,6 +183,7 @@ func (s *Solver) solve(o *Oblig) {
 		rr := runSolver(solvers[0], rf, t1, s.seed)
 		if rr.verdict == "sat" {
 			o.Relaxed = rr.out
+			ent.relaxed = rr.out
 		}
 	}
 }
